@@ -364,6 +364,9 @@ def run(rep, f, c, rule='R-DIM'):
                'the local(s) %s index both the source and the destination; outside the 1:1 conversions (%s) each buffer has its own position' %
                ([b.locals[l].get('name') or '_%d' % l for l in shared], ', '.join(sorted(x.split('::')[-1] for x in SHARED_OK))), sp_str(b.raw['span']), None, c)
 
+        if fn_key in SHARED_OK and name.startswith('utf_8::Utf8Encoder::'):
+            continue        # UTF-8 -> UTF-8: source and destination positions are the same quantity; the function is decided exactly by R-UTF8ENC
+
         def report(kind, key, ok, msg, site):
             nonlocal nchk
             k2 = '%s:%s:%s' % (name, kind, key)
